@@ -413,9 +413,9 @@ def worker(ctx, job):
 
 
 def run(ctx):
-    n = ctx.pick(50, 2400)
-    jobs = [{"n": n, "budget": ctx.pick(25, 330)} for _ in range(16)]
-    ctx.shard(jobs, timeout=ctx.pick(60, 400))
+    n = ctx.pick(50, 8000)
+    jobs = [{"n": n, "budget": ctx.pick(25, 900)} for _ in range(16)]
+    ctx.shard(jobs, timeout=ctx.pick(60, 1500))
     total = 16 * n
     ctx.floor("distinct_nontrivial", total // 2)
     ctx.floor("completed_chains", total // 2)
